@@ -406,16 +406,20 @@ def permute_rules(g, rng):
 
 
 def rename(g, kind):
-    "injective renaming of nonterminals: 'int', 'str', 'tuple'"
+    """injective renaming of nonterminals: 'int', 'str', 'tuple', and names that are falsy in Python:
+    'int0' (0, 1, 2, ... - only when no terminal is an int) and 'tuple0' ((), ('nt', 1), ...)"""
     V = set(g["V"])
     names = {}
+    if kind == "int0" and any(isinstance(x, int) for x in V):
+        kind = "tuple0"
 
     def f(x):
         if x in V:
             return x
         if x not in names:
             i = len(names)
-            names[x] = {"int": 1000 + 7 * i, "str": f"Q_{i}'", "tuple": ("nt", i)}[kind]
+            names[x] = {"int": 1000 + 7 * i, "str": f"Q_{i}'", "tuple": ("nt", i), "int0": i,
+                        "tuple0": (() if i == 0 else ("nt", i))}[kind]
         return names[x]
 
     S = f(g["S"])
